@@ -84,16 +84,7 @@ static void handle_common(int allow_null_cb) {
   janet_vm.listener_count = nd_i32(); g_total = nd_int();
   __CPROVER_assume(g_total >= 0 && janet_vm.listener_count >= g_total);
 #ifdef EV_K   /* bounded environment (the goto-recur loop shares its head with the EINTR loop: dfcc cannot carry contracts for it) */
-#ifdef EV_EXACT
-  __CPROVER_assume(g_total == EV_K);      /* one burst of exactly EV_K events: keeps the path straight-line */
-#else
-  __CPROVER_assume(g_total <= EV_K);
-#endif
-#ifdef EV_EINTR
-  g_eintr_budget = EV_EINTR;
-#else
-  g_eintr_budget = EV_K;
-#endif
+  __CPROVER_assume(g_total <= EV_K); g_eintr_budget = EV_K;
 #else
   g_eintr_budget = 1;
 #endif
